@@ -11,7 +11,7 @@ def sh(cmd, **kw):
 sh('git -C /repo worktree remove --force %s' % wt)
 r = sh('/verif/tools/seedtools/mkworktree.sh %s' % wt); assert r.returncode == 0, r.stderr
 env = dict(os.environ, PYTHONPATH=wt + '/src', PYTHONHASHSEED='0')
-meta = {'property': prop, 'name': name}
+meta = {'property': prop, 'name': name, 'repo_commit': sh('git -C /repo rev-parse --short HEAD').stdout.strip()}
 try:
     d0 = sh('/venv/bin/python %s/demo.py' % src, env=env, cwd=wt)
     meta['demo_without_change_exit'] = d0.returncode
